@@ -473,38 +473,45 @@ func (st *Std) Client() Client {
 		}
 		return t, f
 	}
-	cond0 = func(c ast.Expr, s S) (t, f []S) {
-		// error-edge hook for a bare `err != nil` / `err == nil`
-		if x, trueIsErr, ok := ErrCheck(info, c); ok {
-			if o := ObjOf(info, x); o != nil {
-				id := VarID(o)
-				tag := s.Get("ev:" + id)
-				mk := func(isErr bool) []S {
-					if k := s.Get("nn:" + id); (k == "T" && !isErr) || (k == "F" && isErr) {
-						return nil
-					}
-					s2 := s
-					if st.trackable(o) {
-						if isErr {
-							s2 = s2.Set("nn:"+id, "T")
-						} else {
-							s2 = s2.Set("nn:"+id, "F")
-						}
-					}
-					if tag != "" && st.OnErrEdge != nil {
-						var ok bool
-						if s2, ok = st.OnErrEdge(tag, isErr, s2); !ok {
-							return nil
-						}
-					}
-					return []S{s2}
-				}
-				if trueIsErr {
-					return mk(true), mk(false)
-				}
-				return mk(false), mk(true)
-			}
+	// error checks are leaves of the condition: `err != nil`, `!(err != nil)`,
+	// `err != nil || len(x) == 0` all refine the error variable's state.
+	st.Eval.Leaf = func(c ast.Expr, s S) (t, f []S, handled bool) {
+		x, trueIsErr, ok := ErrCheck(info, c)
+		if !ok {
+			return nil, nil, false
 		}
+		o := ObjOf(info, x)
+		if o == nil {
+			return nil, nil, false
+		}
+		id := VarID(o)
+		tag := s.Get("ev:" + id)
+		mk := func(isErr bool) []S {
+			if k := s.Get("nn:" + id); (k == "T" && !isErr) || (k == "F" && isErr) {
+				return nil
+			}
+			s2 := s
+			if st.trackable(o) {
+				if isErr {
+					s2 = s2.Set("nn:"+id, "T")
+				} else {
+					s2 = s2.Set("nn:"+id, "F")
+				}
+			}
+			if tag != "" && st.OnErrEdge != nil {
+				var ok bool
+				if s2, ok = st.OnErrEdge(tag, isErr, s2); !ok {
+					return nil
+				}
+			}
+			return []S{s2}
+		}
+		if trueIsErr {
+			return mk(true), mk(false), true
+		}
+		return mk(false), mk(true), true
+	}
+	cond0 = func(c ast.Expr, s S) (t, f []S) {
 		return st.Eval.Eval(c, s)
 	}
 	other := func(br Branch, s S) (t, f []S) {
